@@ -134,7 +134,13 @@ def inject(text, cls, rng):
         if not sites:
             return None
         i = rng.choice(sites)
-        L.insert(i + 1, L[i])
+        dup = L[i]
+        m = re.match(r"        (\d+) : (\w+),$", dup)
+        if m and rng.random() < 0.5:
+            # the same number in another spelling: leading zeros, or as the only member of a key list
+            k = "0" * rng.randint(1, 3) + m.group(1)
+            dup = "        %s : %s," % (k if rng.random() < 0.6 else "[%s]" % k, m.group(2))
+        L.insert(i + 1, dup)
         return "\n".join(L) + "\n", i + 2
     if cls == "second_root":
         non = [p for p in pk if not p[3]]
@@ -239,6 +245,23 @@ def inject(text, cls, rng):
         L.insert(b + 3, "    },")
         return "\n".join(L) + "\n", b + 3
     return None
+
+
+def dup_key_programs():
+    """[(text, line)]: one key declared twice in two spellings, for keys over the whole range of every key type"""
+    out = []
+    for ty, keys in (("u8", [0, 7, 255]), ("u16", [65535]), ("u32", [2147483648, 4294967295]), ("i64", [9223372036854775807]),
+                     ("u64", [4294967296, 9223372036854775807, 9223372036854775808, 18446744073709551615])):
+        for k in keys:
+            for a, b in (("%d", "0%d"), ("00%d", "%d"), ("%d", "[5, 0%d]"), ("[6, %d]", "000%d"), ("[0%d, 0%d]", None)):
+                if b is None:
+                    body = "        %s : A,\n" % (a % (k, k))
+                    line = 4
+                else:
+                    body = "        %s : A,\n        %s : B,\n" % (a % k, b % k)
+                    line = 5
+                out.append(("root packet P {\n    %s k,\n    match k as m {\n%s    },\n}\n\npacket A {\n    u8 x,\n}\n\npacket B {\n    u16 y,\n}\n" % (ty, body), line))
+    return out
 
 
 # ---------------------------------------------------------------- crash probes (C11)
